@@ -109,12 +109,11 @@ def generate(qualname: str, registry: dict, specfuns: dict, engine_cls=None, mut
             if inst is None:
                 continue
             pc, goal = inst
-            smt2 = solve.to_smt2(pc, z3.Not(goal))
-            h = hash(smt2)
+            h = (tuple(c.get_id() for c in pc), goal.get_id())
             if h in seen:
                 continue
             seen.add(h)
-            jobs.append(((qualname, oid, k), smt2))
+            jobs.append(((qualname, oid, k), pc, goal))
             k += 1
         ob.queries = k
         res.obligations.append(ob)
@@ -123,7 +122,7 @@ def generate(qualname: str, registry: dict, specfuns: dict, engine_cls=None, mut
 
 
 def _aggregate(res: FuncResult, jobs, verdicts):
-    smt = dict(jobs)
+    smt = {k: v[4] for k, v in verdicts.items()}
     for ob in res.obligations:
         vs = [(k, verdicts[k]) for k in verdicts if k[1] == ob.oid]
         ob.seconds = sum(v[2] for _, v in vs)
@@ -145,7 +144,8 @@ def _aggregate(res: FuncResult, jobs, verdicts):
 def _verify_one(args):
     """generate + discharge one function; when an invariant conjunct is refuted, try to re-establish the proof
     without it (Houdini, DESIGN.md 2.7) so that the property-bearing obligation that depended on it shows."""
-    qualname, contracts_mod = args
+    qualname, contracts_mod = args[:2]
+    inner_workers = args[2] if len(args) > 2 else 1
     import copy
     import importlib
 
@@ -154,7 +154,7 @@ def _verify_one(args):
     dropped = []
     for _round in range(8):
         res, jobs = generate(qualname, registry, mod.SPECFUNS, getattr(mod, "ENGINE", None))
-        verdicts = solve.discharge(jobs, workers=1)
+        verdicts = solve.discharge_objects(jobs, workers=inner_workers)
         _aggregate(res, jobs, verdicts)
         bad = [ob for ob in res.obligations if ob.kind in ("INV-init", "INV-pres") and ob.verdict == "failed"]
         if not bad or res.status != "ok":
@@ -276,7 +276,7 @@ def verify(qualnames, contracts_mod: str, workers=None):
     qualnames_all = list(qualnames)
     qualnames = todo
     if len(qualnames) == 1 or workers == 1:
-        outs = [_verify_one((q, contracts_mod)) for q in qualnames]
+        outs = [_verify_one((q, contracts_mod, workers)) for q in qualnames]
     else:
         with ProcessPoolExecutor(max_workers=min(workers, len(qualnames))) as ex:
             outs = list(ex.map(_verify_one, [(q, contracts_mod) for q in qualnames]))
